@@ -86,6 +86,13 @@ CLAIMS["C07"] = dict(
     technique="table and threshold-ladder extraction from the resolved AST, sibling agreement",
     design="DESIGN.md section 4, C07")
 
+CLAIMS["C14"] = dict(
+    text="Agreement of the `tf` command table with the inline dispatcher (every advertised inline name accepted and bound to the same "
+         "Value operations), compact-size prefix ladder vs the serializer's, hash compositions (transforms and opcode forms), and "
+         "non-emptiness guards after a failed decode. The computed values (hashes, codecs, arithmetic) are not decided.",
+    technique="table agreement + ladder/call-sequence extraction + guard dominance",
+    design="DESIGN.md section 4, C14")
+
 NOT_YET = "check not built yet in this round (see DESIGN.md section 7 build order)"
 
 NA = {
